@@ -25,6 +25,38 @@ REF_TXN_ABI = ["account", "asset", "application", "pay", "txn"]
 MAXU = {"uint64": 2**64 - 1, "uint32": 2**32 - 1, "uint16": 65535, "uint8": 255, "byte": 255, "bool": 1}
 
 FAULT_KINDS = ["native", "user", "reclimit", "abort", "peer"]
+# Real programs shipped with the repository (examples/ and the programs its unit tests build);
+# modules that flip the process-global source-map gate when imported are left out (the schedule
+# must own the gates: examples.application.sourcemap, examples.signature.dutch_auction):
+# (module, attribute, call arguments | None for a module-level object, mode, versions that compile)
+EXAMPLES = [
+    ["examples.application.asset", "approval_program", [], "app", 2],
+    ["examples.application.asset", "clear_state_program", [], "app", 2],
+    ["examples.application.security_token", "approval_program", [], "app", 2],
+    ["examples.application.security_token", "clear_state_program", [], "app", 2],
+    ["examples.application.vote", "approval_program", [], "app", 2],
+    ["examples.application.vote", "clear_state_program", [], "app", 2],
+    ["examples.application.opup", "approval_program_explicit_ensure", [], "app", 6],
+    ["examples.application.opup", "approval_program_oncall_ensure", [], "app", 6],
+    ["examples.application.opup", "approval_program_explicit_maximize", [], "app", 5],
+    ["examples.application.opup", "approval_program_oncall_maximize", [], "app", 5],
+    ["examples.signature.atomic_swap", "htlc", [], "sig", 2],
+    ["examples.signature.basic", "bank_for_account", ["ZZAF5ARA4MEC5PVDOP64JM5O5MQST63Q2KOY2FLYFLXXD3PFSNJJBYAFZM"], "sig", 2],
+    ["examples.signature.periodic_payment", "periodic_payment", [], "sig", 2],
+    ["examples.signature.recurring_swap", "recurring_swap", [], "sig", 2],
+    ["examples.signature.split", "split", [], "sig", 2],
+    ["examples.signature.factorizer_game", "logicsig", [1, 5, 7], "sig", 4],
+    ["examples.application.abi.algobank", "router", None, "router", 6],
+    ["tests.unit.pass_by_ref_test", "wilt_the_stilt", [], "app", 5],
+    ["tests.unit.pass_by_ref_test", "swapper", [], "app", 5],
+    ["tests.unit.pass_by_ref_test", "sub_logcat_dynamic", [], "app", 5],
+    ["tests.unit.pass_by_ref_test", "sub_mixed", [], "app", 5],
+    ["tests.unit.pass_by_ref_test", "lots_o_vars", [], "app", 5],
+    ["tests.unit.pass_by_ref_test", "empty_scratches", [], "app", 5],
+    ["tests.unit.user_guide_test", "user_guide_snippet_dynamic_scratch_var", [], "app", 5],
+    ["tests.unit.user_guide_test", "user_guide_snippet_recursiveIsEven", [], "app", 4],
+    ["tests.unit.user_guide_test", "user_guide_snippet_ABIReturnSubroutine", [], "app", 5],
+]
 NAMEPOOL = ["f", "g", "helper", "calc", "do_it", "check_owner", "x", "sum_", "mul_add", "get", "set_", "payout", "Z", "a_b", "fn", "transfer", "verify", "inner", "step", "q"]
 INTPOOL = [0, 1, 2, 3, 7, 10, 100, 255, 256, 1000, 65535, 65536, 2**32, 2**32 + 1, 2**63, 2**64 - 1, 123456789, 42]
 BYTEPOOL = ["", "a", "abc", "hello world", "k1", "k2", "\\x00", "x" * 20, "key", "value", "//", "a;b", "A" * 33,
@@ -1151,6 +1183,24 @@ def gen_plan(seed: int, cfg: dict) -> dict:
             if not is_noise:
                 live_targets.append(pid)
         sessions.append(ops)
+
+    # a real program of the repository as one more target (one per run: programs taken from one
+    # module share its module-level subroutines, programs of a run must share no objects)
+    if r.random() < 0.35:
+        ex = r.choice(EXAMPLES)
+        epid = new_pid("T")
+        espec = {
+            "id": epid, "kind": "example", "module": ex[0], "attr": ex[1], "args": ex[2], "mode": "app" if ex[3] == "router" else ex[3],
+            "router": ex[3] == "router", "target": True, "subs": [], "steps": [["import"]] + ([] if ex[2] is None else [["call"]]), "minv": ex[4],
+        }
+        programs[epid] = espec
+        order.append(epid)
+        eops: list[dict] = [{"op": "build", "p": epid} for _ in espec["steps"]]
+        for _ in range(r.choice([1, 2, 2, 3])):
+            eops.append(_compile_op(r, espec, enabled, sm_run, [o for o in eops if o["op"] == "compile"]))
+        sessions.append(eops)
+        nsess += 1
+        live_targets.append(epid)
 
     # scheduler: seeded interleaving of the sessions (API-call granularity)
     style = r.choice(["uniform", "uniform", "bursty", "sequential"])
